@@ -164,7 +164,7 @@ func (r *Reader) loadChapters(zr *zip.Reader) error {
 // resolveHref resolves a relative href against the OPF base directory.
 func (r *Reader) resolveHref(href string) string {
 	// URL-decode the href
-	if decoded, err := url.QueryUnescape(href); err == nil {
+	if decoded, err := url.PathUnescape(href); err == nil {
 		href = decoded
 	}
 
